@@ -820,7 +820,7 @@ def replay(case):
 # ------------------------------------------------------------------------------------------------ enumeration
 RUN_STARTS = list(range(0, 128, 8))
 RUN_LENS = (1, 3, 12)
-Z = (0.0, 0.01, 0.1)
+Z = (0.0, 0.01, 0.1, -0.002)      # a blueshifted object: the feature moves redwards
 POS = tuple(range(10, 50, 4))
 
 
@@ -830,7 +830,7 @@ def tasks(tier):
     # shard 0 (small): no inverse variance at all
     t.append({'f': 'noivar'})
     t.append({'f': 'pp', 'nobj': 1})
-    for zi in range(3):
+    for zi in range(len(Z)):
         t.append({'f': 'pp', 'nobj': 2, 'z0': zi, 'pos': list(POS) if T else list(POS[::4])})
     if T:
         # L1: all 2^14 patterns
@@ -934,6 +934,9 @@ def tasks(tier):
                   'ivars': ['ramp', 'saw'], 'grids': ['exp1', 'wider']})
         t.append({'f': 'c3s', 'nexp': 3, 'D': 40, 'frac': 0.0, 'e': 2, 'starts': [0, 64, 120], 'lens': [3],
                   'ivars': ['ramp'], 'grids': ['exp2', 'third', 'wider']})
+    # a single spectrum handed over as a one-row stack (1, npix): the single-spectrum clauses apply to every output pixel
+    t.append({'f': 'c3s', 'nexp': 1, 'D': 0, 'frac': 0.0, 'e': 0, 'starts': list(range(0, 128, 4)) if T else [0, 20, 64, 100, 120],
+              'lens': [1, 3, 12] if T else [1, 3], 'ivars': ['const', 'ramp', 'saw'], 'grids': ['exp0', 'third', 'wider']})
     # 2-D pairs of runs
     if T:
         for off in ('zero', 'alt'):
